@@ -58,7 +58,10 @@ impl Key {
 
     pub fn from_rel_link_url(url: &str, relative_to: &str) -> Self {
         let key = url.trim_end_matches(".md").to_string();
-        let path = RelativePath::new(relative_to).join(key).to_string();
+        // normalise, so that `../2` written in a note of `d/` is the key `2`, not `d/../2`
+        let path = RelativePath::new(relative_to)
+            .join_normalized(key)
+            .to_string();
         Key {
             relative_path: Arc::new(path),
         }
